@@ -18,6 +18,7 @@ import (
 	tmdb "github.com/cometbft/cometbft-db"
 	"github.com/cometbft/cometbft/libs/log"
 	"github.com/cosmos/cosmos-sdk/baseapp"
+	sdk "github.com/cosmos/cosmos-sdk/types"
 
 	"github.com/kava-labs/kava/app"
 	"kavaverif/drivers/world"
@@ -42,10 +43,25 @@ type divergence struct {
 }
 
 func newAppOnDB(db tmdb.DB) app.TestApp {
+	return newAppWith(db, app.DefaultOptions)
+}
+
+func newAppWith(db tmdb.DB, opts app.Options) app.TestApp {
 	_ = NewApp // ensure sdk config is set
 	enc := app.MakeEncodingConfig()
-	a := app.NewApp(log.NewNopLogger(), db, app.DefaultNodeHome, nil, enc, app.DefaultOptions, baseapp.SetChainID(app.TestChainId))
+	a := app.NewApp(log.NewNopLogger(), db, app.DefaultNodeHome, nil, enc, opts, baseapp.SetChainID(app.TestChainId))
 	return app.TestApp{App: *a}
+}
+
+// nodeLocalOptions differ from the defaults only in settings that are local to a node
+// (mempool authentication, EVM tracer, max gas wanted, invariant check period); the
+// property says every node computes the same results regardless.
+func nodeLocalOptions(w *world.World) app.Options {
+	o := app.DefaultOptions
+	o.MempoolEnableAuth = true
+	o.MempoolAuthAddresses = []sdk.AccAddress{w.Addrs[0]}
+	o.InvariantCheckPeriod = 5
+	return o
 }
 
 func cmpBlock(a, b world.BlockResult) string {
@@ -110,7 +126,8 @@ func runHistory(seed uint64, idx, nBlocks int, cnt *Counters) (*divergence, int,
 	A := wA.Start(NewApp())
 	gen := wA.GenesisBytes(A)
 	wB := world.NewWorld(cfg, seed*1000+uint64(idx), nil)
-	B := wB.StartFrom(NewApp(), gen, world.Genesis0)
+	// replica B runs with different node-local options
+	B := wB.StartFrom(newAppWith(tmdb.NewMemDB(), nodeLocalOptions(wA)), gen, world.Genesis0)
 	dbC := tmdb.NewMemDB()
 	wC := world.NewWorld(cfg, seed*1000+uint64(idx), nil)
 	C := wC.StartFrom(newAppOnDB(dbC), gen, world.Genesis0)
@@ -147,7 +164,7 @@ func runHistory(seed uint64, idx, nBlocks int, cnt *Counters) (*divergence, int,
 			}
 		}
 		if w := cmpBlock(ra, rb); w != "" {
-			return &divergence{height, w, ra, rb, "B (independent replica, same process)", descs, cfg}, nTx, okTx, sample
+			return &divergence{height, w, ra, rb, "B (independent replica with different node-local options)", descs, cfg}, nTx, okTx, sample
 		}
 		if w := cmpBlock(ra, rc); w != "" {
 			return &divergence{height, w, ra, rc, "C (database re-opened)", descs, cfg}, nTx, okTx, sample
@@ -177,7 +194,7 @@ func runHistory(seed uint64, idx, nBlocks int, cnt *Counters) (*divergence, int,
 		sb, pb := world.Begin(B, height, t)
 		sc, pc := world.Begin(C, height, t)
 		if sa != sb || pa != pb {
-			return &divergence{height, "begin_block", sa + pa, sb + pb, "B (independent replica, same process)", nil, cfg}, nTx, okTx, sample
+			return &divergence{height, "begin_block", sa + pa, sb + pb, "B (independent replica with different node-local options)", nil, cfg}, nTx, okTx, sample
 		}
 		if sa != sc || pa != pc {
 			return &divergence{height, "begin_block", sa + pa, sc + pc, "C (database re-opened)", nil, cfg}, nTx, okTx, sample
